@@ -84,7 +84,7 @@ class FinalFeedback:
         self.considered.append(feedback)
         # Check if we should suppress this feedback based on its
         # category and label (and also potentially fields)
-        category = feedback.category.lower()
+        category = (feedback.category or Feedback.CATEGORIES.UNKNOWN).lower()
         if category in self.suppressions:
             if True in self.suppressions[category]:
                 return
